@@ -67,6 +67,39 @@ Theorem C12_mapped_box_composes : forall a b r, skewless a -> skewless b -> box_
 Proof. exact map_box_compose. Qed.
 Print Assumptions C12_mapped_box_composes.
 
+(* ARBITRARY affine transforms (rotation, skew, mirror, even singular).  Unstroked polygonal paths, both branches of
+   Path::new (with skew: bounding box of the transformed path; without: the mapped object box): the absolute box contains
+   the image of every vertex and of every point of every segment. *)
+Theorem C12_path_abs_contains_vertex : forall t pts b p,
+  path_abs_bbox t pts = Some b -> In p pts -> inside b (map_x t (fst p) (snd p)) (map_y t (fst p) (snd p)).
+Proof. exact path_abs_contains_vertex. Qed.
+Print Assumptions C12_path_abs_contains_vertex.
+
+Theorem C12_path_abs_contains_segment : forall t pts b p q l,
+  path_abs_bbox t pts = Some b -> In p pts -> In q pts -> 0 <= l <= 1 ->
+  inside b (fst (apply_ts t (mix l p q))) (snd (apply_ts t (mix l p q))).
+Proof. exact path_abs_contains_segment. Qed.
+Print Assumptions C12_path_abs_contains_segment.
+
+(* Groups, by induction over the tree, for arbitrary transforms: the absolute box of a group contains the absolute box of
+   every child, hence - at any depth - the image of every vertex (and segment point) of every path below it under that
+   path's own absolute transform. *)
+Theorem C12_tree_child_box_contained : forall ch b c bc,
+  pt_abs_box (PGroup ch) = Some b -> In c ch -> pt_abs_box c = Some bc -> contains b bc.
+Proof. exact tree_child_box_contained. Qed.
+Print Assumptions C12_tree_child_box_contained.
+
+Theorem C12_tree_abs_box_contains_points : forall n b a p,
+  pt_abs_box n = Some b -> In (a, p) (leaf_points n) -> inside b (map_x a (fst p) (snd p)) (map_y a (fst p) (snd p)).
+Proof. exact tree_abs_box_contains_points. Qed.
+Print Assumptions C12_tree_abs_box_contains_points.
+
+Theorem C12_tree_abs_box_contains_segments : forall n b a p q l,
+  pt_abs_box n = Some b -> In (a, p) (leaf_points n) -> In (a, q) (leaf_points n) -> 0 <= l <= 1 ->
+  inside b (fst (apply_ts a (mix l p q))) (snd (apply_ts a (mix l p q))).
+Proof. exact tree_abs_box_contains_segments. Qed.
+Print Assumptions C12_tree_abs_box_contains_segments.
+
 (* abs_transform of every node = product of the ancestors' transforms down to the node ... *)
 Theorem C12_abs_transform_product : forall n pabs,
   has_use_ts n = false -> product_ok pabs (thread pabs n) = true.
@@ -134,6 +167,11 @@ Example C12_ex_nested_svg :
   let n := TGroup GK_Plain (from_translate 7 3) ts_identity
              [TGroup GK_ClipWrap ts_identity ts_identity [TGroup GK_Plain (from_row 2 0 0 2 20 30) ts_identity [TLeaf]]] in
   has_use_ts n = false /\ product_ok (from_translate 10 5) (thread (from_translate 10 5) n) = true.
+Proof. vm_compute. split; reflexivity. Qed.
+(* a triangle under a 45 degree rotation with scale sqrt(2) (matrix 1 1 -1 1): skew branch *)
+Example C12_ex_rotated_path :
+  path_abs_bbox (from_row 1 1 (-1) 1 0 0) [(0, 0); (10, 0); (0, 10)] = Some (mkbox (-10) 0 10 10) /\
+  pt_abs_box (PGroup [PLeaf (from_row 1 1 (-1) 1 0 0) [(0, 0); (10, 0); (0, 10)]; PGroup []; PFixed (mkbox 20 20 30 30)]) = Some (mkbox (-10) 0 30 30).
 Proof. vm_compute. split; reflexivity. Qed.
 Example C12_ex_product : product_ok ts_identity (thread ts_identity
   (TGroup GK_Plain (from_translate 3 4) ts_identity [TGroup GK_Plain (from_scale 2 2) ts_identity [TLeaf]; TLeaf])) = true.
